@@ -99,13 +99,19 @@ STRUCT = "Wir nennen die Kombination aus\n\tder Zahl x mit Standardwert 0,\neine
 def program(pos, sigma, tau):
     """sigma supplied where tau is required; returns source or None"""
     p = Prog()
-    s = p.src(sigma)
+    s = ("nichts", "n") if sigma == "N" else p.src(sigma)
     t = p.src(tau)
     if s is None or t is None:
         return None
-    val = lambda x: "der Standardwert von %s %s" % ("einer" if x[1] == "f" else "einem", x[0])
+    # a value of type 'nichts' is the result of calling a function that returns nothing
+    val = lambda x: "(tue nichts)" if x[0] == "nichts" else "der Standardwert von %s %s" % ("einer" if x[1] == "f" else "einem", x[0])
     art = "Die" if t[1] == "f" else "Der"
     head = STRUCT + "\n".join(p.decls) + "\n"
+    if sigma == "N":
+        head += 'Die Funktion tue_nichts gibt nichts zurück, macht:\n\tDie Zahl lokal ist 1.\nUnd kann so benutzt werden:\n\t"tue nichts"\n\n'
+    if pos == "return":
+        ein = {"f": "eine", "m": "einen", "n": "ein"}.get(t[1], "einen")
+        return head + 'Die Funktion gib_es gibt %s %s zurück, macht:\n\tGib %s zurück.\nUnd kann so benutzt werden:\n\t"gib es"\n' % (ein, t[0], val(s))
     if pos == "init":
         return head + "%s %s x ist %s.\n" % (art, t[0], val(s))
     if pos == "assign":
@@ -176,15 +182,15 @@ def check(res, tier):
     if tier == "quick":
         # all depth<=1 types, plus depth-2 sample
         d1 = [t for t in Universe().upto(1) if "N" not in t and "S2" not in t]
-        pairs = [(s, t) for s in d1 for t in d1]
+        pairs = [(s, t) for s in d1 for t in d1] + [("N", t) for t in d1]
         d2 = ptypes
         for _ in range(600):
             pairs.append((rng.choice(d2), rng.choice(d2)))
     else:
-        pairs = [(s, t) for s in ptypes for t in ptypes]
+        pairs = [(s, t) for s in ptypes for t in ptypes] + [("N", t) for t in ptypes]
     reqs, meta, qlines = [], [], []
     for (s, t) in pairs:
-        for pos in ("init", "assign", "cast"):
+        for pos in ("init", "assign", "cast", "return"):
             src = program(pos, s, t)
             if src is None:
                 continue
@@ -194,7 +200,7 @@ def check(res, tier):
     outs = corr.parse_many(harness, reqs)
     want = corr.run_lines(model, qlines)
     codes = error_codes()
-    bad_codes = {"init": codes["TYP_BAD_ASSIGNEMENT"], "assign": codes["TYP_BAD_ASSIGNEMENT"], "cast": codes["TYP_BAD_CAST"]}
+    bad_codes = {"init": codes["TYP_BAD_ASSIGNEMENT"], "assign": codes["TYP_BAD_ASSIGNEMENT"], "cast": codes["TYP_BAD_CAST"], "return": codes["TYP_WRONG_RETURN_TYPE"]}
     res.evaluations += len(reqs)
     pm = 0
     accepted = 0
@@ -220,7 +226,8 @@ def check(res, tier):
     res.exhaustive = True
     res.rule = ("all ordered pairs of the %d types of depth <= %d over bases %s under list/alias/two definitions (exhaustive) "
                 "[+ random depth-3 pairs in quick]; every predicate compared with the model; laws monitored on the implementation's "
-                "Equal matrix; three syntactic positions for every ordered pair of expressible types through parser.Parse") % (n, depth, BASES)
+                "Equal matrix; four syntactic positions (initialiser, assignment, cast, returned value) for every ordered pair of expressible types, "
+                "and a value of type 'nichts' in each, through parser.Parse") % (n, depth, BASES)
     for i in (10, nex // 2):
         res.sample({"request": lines[i], "implementation": a[i], "model": b[i]})
     if reqs:
